@@ -21,12 +21,15 @@ def run(c):
               "agent.Shard.ApplyCounter/AddCounterHost/AddValueCounterHost/ApplyValues/MergeItemValue) with Zipf-distributed top values "
               "(string, int, string+int, binary, empty), capacity 1..20 / varying per event / <1 (default 100) / roomy, counter, value, "
               "value-array and merge events whose counts and values are dyadic rationals (multiples of 1/16; half of the cases fractional, "
-              "16% of the cases a cluster of many distinct top values with counts less than 1 apart and a finish cutting through it), random re-enumerations, FinishStringTop at the end (and sometimes in the middle) with "
+              "12% of the cases a cluster of many distinct top values with counts less than 1 apart, 10% a cluster of very heavy near-ties "
+              "base + k*step around 2^24/2^25/2^31/2^40 with steps 1/16, 1, half a float32 ulp, a float32 ulp — in both a finish cuts through the cluster), random re-enumerations, FinishStringTop at the end (and sometimes in the middle) with "
               "capacity around the number of top values (one third steered onto a tie); non-trivial = the case reached at least "
               "one of: resample = a resample round evicted values, redirect = an event was sent to the tail by the sample-factor "
               "test, fold = finish folded values, tie = equal counts on both sides of the finish boundary, fraccut = retained and folded counts at the boundary differ by "
-              "less than 1 (per-tag counts in "
-              "nontrivial_tags); distinct by op-sequence hash")
+              "less than 1, f32cut = they differ but are equal as float32 (per-tag counts in "
+              "nontrivial_tags); distinct by op-sequence hash. A second, oracle-only stream (-mode=heavy, no model replay because sums of such weights are "
+              "not exact) builds rows of 3..40 distinct values whose weights are float64 neighbours / float32 neighbours +-1 float64 ulp / "
+              "relative offsets k*2^-30 of 3, 2^24, 2^31, 2^53, 2^62, 1e30, 3e38 and finalizes with a capacity inside the cluster")
     c.assumptions += [
         "exact float64 domain: counts and values are multiples of 1/16, sums multiples of 1/256, all below 2^53 in those units (the model "
         "holds them as scaled Ints); value-array counts are multiples of the array length",
@@ -52,6 +55,11 @@ def run(c):
             c.harness_ok(rc, out, "verif-c07")
             c.correspond(out, drv, label=f"batch{k}")
             del out
+    if binary:
+        # near-ties beyond the exact-sum domain: only the order part of the property (heaviest kept, capacity) is evaluated
+        rc, out = c.go_run(binary, ["-mode=heavy", f"-n={c.n(400, 6000)}"])
+        c.harness_ok(rc, out, "verif-c07 -mode=heavy")
+        c.collect(out, label="heavy")
 
     def search():
         if not binary:
@@ -72,14 +80,17 @@ META = {
     "text": ("Kernel-checked: for every history of writes, re-enumerations and finishes from an empty row, every capacity, every draw stream "
              "and every map order, count/sum/min/max over top+tail equal those of the events written (conservation, also one step at a time "
              "for resample and finish); keys stay unique; finish leaves at most max(capacity,0) values, the retained and folded values "
-             "partition the old top, every retained count >= every folded count, and the returned whale weight is the total count. "
+             "partition the old top, every retained count >= every folded count (exact comparison; `cmpRounded` shows by `decide` that a "
+             "comparator rounding the weights to any coarser grid — int truncation, a float32 copy — retains a lighter value), and the "
+             "returned whale weight is the total count. "
              "The model is tied to the code by replaying each generated history on the real row and on the compiled model, "
              "comparing the touched aggregate, the tail, the size, the sample factor and the evicted set after every event and the whole "
              "row after finish."),
     "note": ("Trusted: Lean kernel; the reading of the property; correspondence on generated histories (quick 800, thorough 6x4000 cases) in the "
              "exact integer domain of float64; witnesses for randomness/map order are derived from observed states (a draw that is "
              "consistent with the outcome is assumed, the actual sfc64 stream is not replayed except for the redirect test). "
-             "Memory aliasing between the caller's []byte and the keys of Top cannot be expressed in the functional model: it is covered only by "
+             "Near-tie weights outside the exact-sum domain (2^53, 2^62, 1e30, 3e38, float64-ulp neighbours) are checked by the direct oracle only "
+             "(finish-not-heaviest compares the real float64 counters), not by the model correspondence. Memory aliasing between the caller's []byte and the keys of Top cannot be expressed in the functional model: it is covered only by "
              "driving MapStringTopBytes from one reused, overwritten buffer and checking the real row. Not modelled: host tags, sum of squares, t-digest, HLL, int overflow of 1<<sampleFactorLog2, non-finite counts. "
              "Termination of the resample loop is only probabilistic in the code; proved: it ends under maximal draws, and "
              "a round with zero draws on positive counts changes nothing (so no worst-case bound exists)."),
